@@ -3,3 +3,6 @@ include!("../../../reference/gen_types.rs");
 pub mod golden;
 pub mod model;
 pub mod report;
+pub mod util;
+pub mod checks;
+pub mod replay;
